@@ -145,6 +145,30 @@ def upload_relative(tree):
     return out
 
 
+def pwd_doubles_quotes():
+    """does `Server.pwd` double the quotes of the directory before putting it between quotes?
+    True when the method applies `.replace('"', '""')` to an expression mentioning current_directory."""
+    import aioftp.server  # noqa
+
+    with open(sys.modules["aioftp.server"].__file__) as f:
+        tree = ast.parse(f.read())
+    for cls in [n for n in tree.body if isinstance(n, ast.ClassDef) and n.name == "Server"]:
+        for fn in [n for n in cls.body if isinstance(n, ast.AsyncFunctionDef) and n.name == "pwd"]:
+            for n in ast.walk(fn):
+                if (
+                    isinstance(n, ast.Call)
+                    and isinstance(n.func, ast.Attribute)
+                    and n.func.attr == "replace"
+                    and len(n.args) == 2
+                    and all(isinstance(a, ast.Constant) for a in n.args)
+                    and n.args[0].value == '"'
+                    and n.args[1].value == '""'
+                    and "current_directory" in ast.unparse(n.func.value)
+                ):
+                    return True
+    return False
+
+
 def gen_client():
     tree = _client_ast()
     rel = upload_relative(tree)
@@ -181,6 +205,9 @@ def gen_client():
         "",
         "/-- the built-in parsers of the chain, in order -/",
         "def listChainParsers : List String := " + lean_list((lean_str(e) for e in parsers), per_line=8),
+        "",
+        "/-- `Server.pwd` doubles the double quotes of the directory before quoting it (RFC 959) -/",
+        "def pwdDoublesQuotes : Bool := %s" % ("true" if pwd_doubles_quotes() else "false"),
         "",
         "/-- `Client.upload`: the `relative = <expr>` assignments of the loop over a directory's children,",
         "    as (guarding test, expression) in source order; \"\" = unconditional -/",
